@@ -3,7 +3,7 @@
    position, for every file), for truncation and for extension, for every structure query of the
    reader model.  The full statement (any alteration) is refuted: known finding K1. *)
 From Coq Require Import List Arith NArith.
-From Jbk Require Import Base.ListExtra Base.Bytes Base.Crc Base.Parser Base.Prog Format.Structs
+From Jbk Require Import Base.ListExtra Base.Bytes Base.Crc Base.CrcParity Base.Parser Base.Prog Format.Structs
   Manifest.SetLocation Content.Pack Dir.Layout Container.Reader Container.Damage Container.Structural.
 Import ListNotations.
 
@@ -62,6 +62,13 @@ Theorem C05_crc_detects_32bit_bursts :
     check_block (bxor blk d) = false.
 Proof. exact check_block_burst. Qed.
 
+(* the generator polynomial has an even number of terms: every alteration of a block that flips an odd
+   number of bits — however scattered over its data and stored CRC — is detected *)
+Theorem C05_crc_detects_every_odd_number_of_flipped_bits :
+  forall blk d, 4 <= length blk -> check_block blk = true -> length d = length blk ->
+    parity (bits_of_bytes d) = true -> check_block (bxor blk d) = false.
+Proof. exact check_block_odd_weight. Qed.
+
 (* K1: the full statement is false of any 32-bit CRC *)
 Theorem C05_any_alteration_refuted :
   exists (f f' : list N) (off size : N) d d',
@@ -86,5 +93,6 @@ Print Assumptions C05_content_location.
 Print Assumptions C05_truncation.
 Print Assumptions C05_extension.
 Print Assumptions C05_crc_detects_32bit_bursts.
+Print Assumptions C05_crc_detects_every_odd_number_of_flipped_bits.
 Print Assumptions C05_any_alteration_refuted.
 Print Assumptions C05_kernel_pattern_is_invisible.
